@@ -23,6 +23,10 @@ class BatchError(Exception):
     """Raised by the batch function itself."""
 
 
+class BatchBaseError(BaseException):
+    """Raised by the batch function; not an Exception subclass."""
+
+
 class ItemError(Exception):
     """Yielded as a per-key failure."""
 
@@ -103,7 +107,7 @@ def gen_program(rng, profile):
         behs = [('value', 7), ('exc', 2), ('omit', 1.5), ('raise', 1.5)] if base == 'c11' else [('value', 8), ('exc', 1), ('omit', 1), ('raise', 2)]
     else:
         behs = [('value', 10), ('none', 1), ('zero', 1), ('empty', 1), ('cls', 1), ('exc', 4), ('exc_sub', 2),
-                ('omit', 3), ('raise', 3), ('twice', 1), ('unknown', 1)]
+                ('omit', 3), ('raise', 3), ('twice', 1), ('unknown', 1), ('raise_cancelled', 0.8), ('raise_base', 0.4)]
         if not profile.endswith('-nostopiter'):
             behs.append(('stopiter', 0.6))
     prog['script'] = [[_w(rng, behs) for _ in range(3)] for _ in range(5)]
@@ -226,6 +230,16 @@ class BatcherWorld:
                 if beh == 'raise':
                     B.raised = BatchError(b, key)
                     self.count('bf.raise')
+                    raise B.raised
+                if beh == 'raise_cancelled':
+                    # the batch function awaits a helper that was cancelled: it fails with CancelledError although nobody
+                    # cancelled the batch itself
+                    self.count('bf.raise_cancellederror')
+                    B.raised = asyncio.CancelledError(b, key)
+                    raise B.raised
+                if beh == 'raise_base':
+                    self.count('bf.raise_baseexception')
+                    B.raised = BatchBaseError(b, key)
                     raise B.raised
                 if idur:
                     await asyncio.sleep(idur)
@@ -456,6 +470,10 @@ class BatcherWorld:
             prop = 'C09' if cancel_world else 'C04'
             o = C.outcome
             if o[0] == 'cancelled':
+                cands, how = self.serving_batches(C)
+                if any(isinstance(B.raised, asyncio.CancelledError) and self.expected_from_batch(B, C.key) == ('raise', B.raised)
+                       for B in cands):
+                    continue        # the batch function itself failed with CancelledError before answering this key
                 self.viol(prop, 'batcher.foreign_cancel', 'a caller nobody cancelled got CancelledError',
                           f'call {C.i} key {C.key} at t={C.t_done}', **self.c09_features(C))
                 continue
@@ -484,6 +502,8 @@ class BatcherWorld:
             msg = ctx.get('message', '')
             if 'never retrieved' in msg or 'exception' in ctx:
                 exc = ctx.get('exception')
+                if exc is not None and any(B.raised is exc for B in self.batches) and not isinstance(exc, Exception):
+                    continue        # a non-Exception failure of the batch function itself may end its batch task
                 prop = 'C09' if cancel_world else 'C04'
                 self.viol(prop, 'batcher.background_death', 'a background task of the batcher died',
                           f'{msg}: {exc!r}', exc=type(exc).__name__ if exc else None)
